@@ -53,7 +53,10 @@ def parts(tier):
 def _run(case, fam):
     a, f, y0 = traj.make_system(case)
     L = abs(case["tf"] - case["t0"])
-    limit = int(math.ceil(L / abs(case["dt"]))) + 3 if fam in ("explicit_fixed", "splitting") else 3000
+    if fam in ("explicit_fixed", "splitting"):
+        limit = int(math.ceil(L / abs(case["dt"]))) + 3
+    else:
+        limit = 300 if fam in ("implicit_fixed", "implicit_embedded", "richardson") else 3000   # cost caps only
     err = traj.run_integrate(a, step_limit=limit)
     return a, f, y0, err, limit
 
